@@ -95,10 +95,15 @@ class CoqLock:
 
 
 def ensure_makefile():
-    if not (COQ / 'Makefile').exists() or (COQ / 'Makefile').stat().st_mtime < (COQ / '_CoqProject').stat().st_mtime:
-        files = sorted(str(p.relative_to(COQ)) for p in (COQ / 'theories').rglob('*.v'))
-        files += sorted(str(p.relative_to(COQ)) for p in (COQ / 'gen').glob('*.v'))
+    """(Re)create the coq_makefile Makefile whenever the set of .v files changed (e.g. a generated file appeared)."""
+    files = sorted(str(p.relative_to(COQ)) for p in (COQ / 'theories').rglob('*.v'))
+    files += sorted(str(p.relative_to(COQ)) for p in (COQ / 'gen').glob('*.v'))
+    stamp = COQ / '.filelist'
+    want = '\n'.join(files)
+    if (not (COQ / 'Makefile').exists() or not stamp.exists() or stamp.read_text() != want
+            or (COQ / 'Makefile').stat().st_mtime < (COQ / '_CoqProject').stat().st_mtime):
         sh(['coq_makefile', '-f', '_CoqProject', '-o', 'Makefile'] + files, 60, cwd=COQ)
+        stamp.write_text(want)
 
 
 def write_if_changed(path: Path, text: str) -> bool:
@@ -180,6 +185,17 @@ class Run:
         if bad:
             self.broken.append(dict(kind='proof-break', what='forbidden construct in the development', detail=bad))
         return not bad
+
+    def regenerate(self):
+        """Re-run the translators on /repo's current working tree (coq/gen/*.v are rewritten only when they change)."""
+        with CoqLock():
+            rc, out = sh([PY, str(VERIF / 'translate' / 'regen.py')], 120, cwd=VERIF)
+        self.checker_cmds.append('translate/regen.py  (regenerates coq/gen/*.v from /repo)')
+        self.trusted.append('translators translate/skeleton.py, translate/cli_surface.py (python ast / click introspection, fail-closed)')
+        if rc != 0:
+            self.broken.append(dict(kind='proof-break', what='translator could not translate the current source (unrecognised construct)',
+                                    detail=out[-1500:]))
+        return rc == 0
 
     def build(self, prop_file: str = None, extra_targets=(), timeout=900) -> bool:
         """make the .vo closure of Properties/<pid>.v (and extra targets); record obligations + axioms."""
